@@ -98,6 +98,16 @@ CHECKS = {
              '(contract E5); they are exercised by the native battery only.',
         technique='MIR symbolic execution (dataflow / handle identity) + z3 path feasibility; native filter battery',
     ),
+    'C09': dict(
+        category='model_checking',
+        text='MIR symbolic execution of the journal writer (persist for each mode from an arbitrary dirty-flag state, dirty-flag invariant of every appending method, rotate ordering), '
+             'of Database::persist, batch durability and the automatic persist of the single-operation writers; a z3 cursor model (appended >= OS-visible >= durable) composes the '
+             'extracted persist paths into every program of <= 4 steps over {write, persist(mode)} and proves that a write acknowledged before an Ok sync-level persist is durable. '
+             'Counterexamples are replayed natively: power-loss images are built from an strace log of the real run (bytes written before the last fsync/fdatasync of each journal).',
+        design_ref='DESIGN.md §5 C09',
+        note='Trusted: F1/F2 (BufWriter/flush/fsync contract). Outside: what fsync does on the device, durability of lsm-tree table files, directory-entry durability beyond the order of fsync_directory calls.',
+        technique='MIR symbolic execution + z3 bounded cursor model; native power-loss replay from strace',
+    ),
 }
 
 NOT_YET = {}
